@@ -42,6 +42,10 @@ var ErrClientMissingPong = errors.New("client missing pong")
 // Connack.
 var ErrClientExpectedConnack = errors.New("client expected connack")
 
+// ErrPacketIDsExhausted is returned by Publish, Subscribe and Unsubscribe if all
+// packet ids are in use by outgoing packets that have not been acknowledged yet.
+var ErrPacketIDsExhausted = errors.New("packet ids exhausted")
+
 // ErrFailedSubscription is returned when a subscription attempt failed and
 // Config.ValidateSubs has been set to true.
 var ErrFailedSubscription = errors.New("failed subscription")
@@ -275,7 +279,12 @@ func (c *Client) PublishMessage(msg *packet.Message) (GenericFuture, error) {
 
 	// set packet id
 	if msg.QOS > 0 {
-		publish.ID = c.Session.NextID()
+		id, err := c.nextID()
+		if err != nil {
+			return nil, err
+		}
+
+		publish.ID = id
 	}
 
 	// create future
@@ -339,8 +348,15 @@ func (c *Client) SubscribeMultiple(subscriptions []packet.Subscription) (Subscri
 
 	// allocate subscribe packet
 	subscribe := packet.NewSubscribe()
-	subscribe.ID = c.Session.NextID()
 	subscribe.Subscriptions = subscriptions
+
+	// set packet id
+	id, err := c.nextID()
+	if err != nil {
+		return nil, err
+	}
+
+	subscribe.ID = id
 
 	// create future
 	subFuture := future.New()
@@ -357,7 +373,7 @@ func (c *Client) SubscribeMultiple(subscriptions []packet.Subscription) (Subscri
 	}
 
 	// send packet
-	err := c.send(subscribe, true)
+	err = c.send(subscribe, true)
 	if err != nil {
 		return nil, c.cleanup(err, false, false)
 	}
@@ -391,7 +407,14 @@ func (c *Client) UnsubscribeMultiple(topics []string) (GenericFuture, error) {
 	// allocate unsubscribe packet
 	unsubscribe := packet.NewUnsubscribe()
 	unsubscribe.Topics = topics
-	unsubscribe.ID = c.Session.NextID()
+
+	// set packet id
+	id, err := c.nextID()
+	if err != nil {
+		return nil, err
+	}
+
+	unsubscribe.ID = id
 
 	// create future
 	unsubscribeFuture := future.New()
@@ -408,12 +431,33 @@ func (c *Client) UnsubscribeMultiple(topics []string) (GenericFuture, error) {
 	}
 
 	// send packet
-	err := c.send(unsubscribe, true)
+	err = c.send(unsubscribe, true)
 	if err != nil {
 		return nil, c.cleanup(err, false, false)
 	}
 
 	return unsubscribeFuture, nil
+}
+
+// nextID returns the next packet id that is not in use by a stored outgoing
+// packet. The counter wraps around after 65535 ids, but an id may only be
+// reused once the flow of the packet that carries it has been completed. A
+// failing session lookup closes the client like any other session error.
+func (c *Client) nextID() (packet.ID, error) {
+	for i := 0; i < 65535; i++ {
+		// get next id
+		id := c.Session.NextID()
+
+		// check if id is still in use
+		pkt, err := c.Session.LookupPacket(session.Outgoing, id)
+		if err != nil {
+			return 0, c.cleanup(err, true, false)
+		} else if pkt == nil {
+			return id, nil
+		}
+	}
+
+	return 0, ErrPacketIDsExhausted
 }
 
 // Disconnect will send a Disconnect packet and close the connection.
